@@ -9,7 +9,8 @@ Contracts:
   *Fitter.expectation_values(full_hilbert_space)     post: value(P) = sigma * sum_{b in {0,1}^N} (-1)^{s . b|q} c_b / sum c_b; with full_hilbert_space the
                                                      key carries factor k of P on qubit q[k] and identity elsewhere; 2^m entries per circuit
      => by M7 applied to the embedded circuit: value = Tr(rho P_embedded) = Tr(rho_q P) for EVERY N-qubit state (symbolic counts)
-Domain: N = 3..5 (thorough: ..6), ALL ordered m-subsets for m = 2, 3 (and seeded m = 4), every configuration for m.
+Domain: N = 3..5 (thorough: ..6), ALL ordered m-subsets for m = 2, 3 (and seeded m = 4), every configuration for m; for m = 5, 6 the key embedding and
+marginalisation (C11.embed) on ALL ordered 5-lists of 6 qubits (thorough: also all 5- and 6-lists of 7) and on structured + seeded lists up to N = 8.
 """
 from __future__ import annotations
 import itertools, random, time
@@ -113,6 +114,54 @@ def subset_job(args):
     return out
 
 
+def structured_lists(N, m, rnd, seeded):
+    """ordered m-lists of range(N) with structure that index-arithmetic slips depend on: every ascending subset, each with one adjacent transposition,
+    reversed, rotated; plus seeded random lists"""
+    out = []
+    for sub in itertools.combinations(range(N), m):
+        sub = list(sub)
+        out.append(tuple(sub))
+        out.append(tuple(reversed(sub)))
+        for i in range(m - 1):
+            t = list(sub)
+            t[i], t[i + 1] = t[i + 1], t[i]
+            out.append(tuple(t))
+        for r in range(1, m):
+            out.append(tuple(sub[r:] + sub[:r]))
+    for _ in range(seeded):
+        out.append(tuple(rnd.sample(range(N), m)))
+    return list(dict.fromkeys(out))
+
+
+def embed_job(args):
+    """key embedding / marginalisation of the real fitter for large m: stabilizer measurement of the ring graph state, symbolic
+    counts over all 2^N outcomes, both key modes"""
+    N, lists, conn = args
+    from qiskit import QuantumCircuit
+    import htstabilizer.tomography as T
+    from htstabilizer.stabilizer import Stabilizer
+    from htstabilizer.graph import Graph
+    out = []
+    for ql in lists:
+        m = len(ql)
+        st = Stabilizer(Graph.cycle(m))          # ring graph state: the layer search is fast (few solutions); the embedding does not depend on the state
+        rp = {"N": N, "measured_qubits": list(ql), "n": m, "connectivity": conn, "mode": "embed"}
+        try:
+            c = T.stabilizer_measurement_circuit(QuantumCircuit(N), st, conn, list(ql))
+            ro = adapt.gates_of(c.metadata["readout info"].circuit)
+            counts = tomo.symbolic_counts(N, "c0_")
+            probs = []
+            for full in (True, False):
+                vals = T.StabilizerMeasurementFitter(tomo.FakeResult(counts), c).expectation_values(full_hilbert_space=full)
+                probs += [f"full={full}: {p}" for p in tomo.check_fitter_dict(vals, ro, m, N, list(ql), "c0_", full)]
+        except tomo.SymbolicBranch as e:
+            probs = [f"fitter branched on a count value: {e}"]
+        except Exception as e:
+            probs = [f"raised {type(e).__name__}: {e}"]
+        out.append((f"C11.embed", not probs, f"embed:{N}:{list(ql)}", f"measuring qubits {list(ql)} of {N}: {probs[:2]}", rp))
+    return out
+
+
 def run(ctx: core.Ctx):
     import htstabilizer.tomography as T
     for f in (T.CircuitResult.__init__, T._compute_expectation_value, T.StabilizerMeasurementFitter.expectation_values,
@@ -153,6 +202,24 @@ def run(ctx: core.Ctx):
             ctx.record(fam, PROVED if ok else REFUTED, rp if fam.total < 2 else None)
             if not ok:
                 ctx.violate(fam, key, what, rp)
+    # key embedding for m = 5, 6 (the readout circuit plays no role in it): all ordered subsets where affordable, structured + seeded lists otherwise
+    ejobs, tags = [], []
+    plan = [(6, 5, "all"), (7, 5, "structured" if ctx.quick else "all"), (7, 6, "structured" if ctx.quick else "all"), (8, 6, "structured"), (8, 5, "structured")]
+    for N, m, mode in plan:
+        lists = list(itertools.permutations(range(N), m)) if mode == "all" else structured_lists(N, m, rnd, 150 if ctx.quick else 1500)
+        for ch in core.chunked(lists, 32):
+            ejobs.append((N, ch, "all"))
+            tags.append((N, m, mode))
+    for (N, m, mode), res in zip(tags, core.pmap(embed_job, ejobs, chunks=1)):
+        for famname, ok, key, what, rp in res:
+            exh = mode == "all"
+            fam = ctx.family(f"C11.embed.m{m}_of_{N}" + ("" if exh else ".structured_and_seeded_lists"), SYM if exh else core.BOUNDED, "native-exec+linear-normal-form+oracle",
+                             "full-register keys carry factor k on qubit qubits[k]; values marginalise exactly the listed qubits; symbolic counts over all 2^N outcomes")
+            fam.exhaustive = exh
+            fam.domain = f"{'ALL ordered' if exh else 'structured (ascending / reversed / one adjacent transposition / rotations of every subset) + seeded'} {m}-lists of {N} qubits"
+            ctx.record(fam, PROVED if ok else REFUTED, rp if fam.total < 2 else None)
+            if not ok:
+                ctx.violate(fam, key, what, rp)
     ctx.extra["ground_time_s"] = round(time.time() - t, 2)
     ctx.extra["subset_cases"] = len(jobs)
     ctx.trust("oracle tableau simulator", "M7 applied to the readout circuit embedded on the measured qubits", "Q2/Q5/Q6 as in C12")
@@ -163,7 +230,9 @@ def run(ctx: core.Ctx):
 
 def replay(data):
     inp = data["input"]
-    if "job" in inp:
+    if inp.get("mode") == "embed":
+        bad = [r for r in embed_job((inp["N"], [tuple(inp["measured_qubits"])], inp["connectivity"])) if not r[1]]
+    elif "job" in inp:
         j = inp["job"]
         bad = [r for r in subset_job((j[0], tuple(j[1]), j[2], j[3], j[4], j[5])) if not r[1]]
     else:
